@@ -9,7 +9,7 @@ from harness import common as c
 
 RULE = ("similarity: data shapes (d,), (1,d), (T,d) and a SemanticPointer x vocabulary given as Vocabulary, ndarray, list of "
         "arrays, list of SemanticPointers x with / without zero rows x normalize on/off, vocabularies of 0..8 keys; text: all "
-        "(minimum <= maximum in {None, 0..4}) x threshold in {None, -1, 0.125, 0.5, 2} x terms in {None, subset, compound "
+        "(minimum <= maximum in {None, 0..4}) x threshold in {None, -1, 0, 0.0, 0.125, 0.5, 2} x terms in {None, subset, compound "
         "expressions} on vocabularies of 0..8 keys with dyadic vectors and engineered ties, output string compared "
         "character by character with the model (exact '%0.2f' rounding); pairs for 0..8 keys. Non-trivial: at least two "
         "keys; distinct = distinct (function, inputs).")
@@ -91,7 +91,7 @@ def run(rep, tier, rng):
     a = 2  # vectors are multiples of 1/4
     k = 2 * a
     counts = [(mn, mx) for mn in (None, 0, 1, 2, 4) for mx in (None, 0, 1, 2, 4) if mn is None or mx is None or mn <= mx]
-    thresholds = [None, -1, 0.125, 0.5, 2]
+    thresholds = [None, -1, 0, 0.0, 0.125, 0.5, 2]      # 0 is a threshold, not 'no threshold'
     for n in ([0, 1, 4, 8] if quick else range(0, 9)):
         for rep_i in range(1 if quick else 3):
             ivecs = [algs.rand_vec(rng, d, -6, 6) for _ in range(n)]
@@ -160,6 +160,20 @@ def run(rep, tier, rng):
         obs = c.lst([c.s(x) for x in o[1]]) if o[0] == "ok" else "[]"
         add(f"check_pairs {c.lst([c.s(x) for x in names[:n]])} {obs}", {"op": "pairs", "n": n, "obs": repr(o)[:200]}, ("pairs", n),
             nontrivial=n >= 2)
+
+    # pairs is a function of the vocabulary's current keys: repeated calls, growth in between, caller mutating the result
+    voc = spa.Vocabulary(16)
+    hist_names = []
+    for step, nm in enumerate(names[:6]):
+        voc.populate(nm)
+        hist_names.append(nm)
+        for rpt in range(2):
+            o = c.observe(lambda: pairs(voc))
+            obs = c.lst([c.s(x) for x in sorted(o[1])]) if o[0] == "ok" else "[]"
+            add(f"check_pairs {c.lst([c.s(x) for x in hist_names])} {obs}", {"op": "pairs-after-growth", "n": len(hist_names), "obs": repr(o)[:200]},
+                ("pairs-history", step, rpt), nontrivial=len(hist_names) >= 2)
+            if o[0] == "ok" and isinstance(o[1], set):
+                o[1].add("X*Y")       # a caller mutating its result must not affect later calls
 
     verdicts = c.coq_eval("C20", "cases", IMPORTS, exprs, shard=300)
     for ok, m in zip(verdicts, meta):
